@@ -18,3 +18,29 @@
 (assert (forall ((s String)) (! (=> (and (> (str.len s) 0) (< 32 (str.to_code (str.at s 0))) (< (str.to_code (str.at s 0)) 127)
                                          (< 32 (str.to_code (str.at s (- (str.len s) 1)))) (< (str.to_code (str.at s (- (str.len s) 1))) 127))
                                     (= (trimSpace s) s)) :pattern ((trimSpace s)))))   ;;@trusted strings.TrimSpace is the identity on strings that begin and end with a printable ASCII byte
+; ---- encapsulation: enc is a [][]string; entry j is a pair (L,R), a single string used on both sides, or ignored
+(define-fun encEntry ((Mem_Slice (Array Int (Array Int Slice))) (enc Slice) (j Int)) Slice
+  (select (select Mem_Slice (s-arr enc)) (+ (s-off enc) j)))
+(define-fun encLft ((Mem_Str (Array Int (Array Int String))) (e Slice)) String
+  (ite (or (= (s-len e) 1) (= (s-len e) 2)) (select (select Mem_Str (s-arr e)) (s-off e)) ""))
+(define-fun encRgt ((Mem_Str (Array Int (Array Int String))) (e Slice)) String
+  (ite (= (s-len e) 1) (select (select Mem_Str (s-arr e)) (s-off e))
+  (ite (= (s-len e) 2) (select (select Mem_Str (s-arr e)) (+ (s-off e) 1)) "")))
+; L_i L_i+1 ... L_n-1   and   R_n-1 ... R_i+1 R_i : entry 0 is outermost
+(define-fun-rec encLF ((Mem_Slice (Array Int (Array Int Slice))) (Mem_Str (Array Int (Array Int String))) (enc Slice) (i Int)) String
+  (ite (or (< i 0) (>= i (s-len enc))) ""
+       (str.++ (encLft Mem_Str (encEntry Mem_Slice enc i)) (encLF Mem_Slice Mem_Str enc (+ i 1)))))
+(define-fun-rec encRF ((Mem_Slice (Array Int (Array Int Slice))) (Mem_Str (Array Int (Array Int String))) (enc Slice) (i Int)) String
+  (ite (or (< i 0) (>= i (s-len enc))) ""
+       (str.++ (encRF Mem_Slice Mem_Str enc (+ i 1)) (encRgt Mem_Str (encEntry Mem_Slice enc i)))))
+(define-fun encapS ((Mem_Slice (Array Int (Array Int Slice))) (Mem_Str (Array Int (Array Int String))) (enc Slice) (v String)) String
+  (str.++ (encLF Mem_Slice Mem_Str enc 0) v (encRF Mem_Slice Mem_Str enc 0)))
+; ---- operator word, parentheses
+(define-fun kindWord ((t (_ BitVec 8))) String
+  (ite (= t #x01) "AND" (ite (= t #x02) "OR" (ite (= t #x03) "NOT" (ite (= t #x04) "LIST" (ite (= t #x05) "CONDITION" (ite (= t #x06) "BASIC" "<invalid_stack>")))))))
+(define-fun opWord ((opt (_ BitVec 16)) (t (_ BitVec 8)) (sym String)) String
+  (ite (> (str.len sym) 0) sym (foldS (bit opt #x0002) (kindWord t))))
+(define-fun parenS ((opt (_ BitVec 16)) (t (_ BitVec 8)) (v String)) String
+  (ite (and (bit opt #x0001) (not (= t #x06)))
+       (ite (bit opt #x0004) (str.++ "(" v ")") (str.++ "( " v " )"))
+       v))
